@@ -110,6 +110,39 @@ theorem lazy_cache_loses_updates :
     (cstepLazy step c2 (.access "p" ())).2 = some ("p", 0) ∧ (cstep step (cstep step (cstep step c (.access "p" ())).1 (.evict "p")).1 (.access "p" ())).2 = some ("p", 1) := by
   simp [cstepLazy, cstep, CS.get, upd]
 
+/-- **the open finding, as a witness on the model** (`C13|two-live-copies-of-a-process`): `cache_transparent` holds for a cache in
+which the cached copy is the only live one. In the engine a scheduler thread can keep working on a copy that has left the cache; with
+such a step in the history the outcome is no longer that of the process alone: a counter that answers 0, 1, 2 alone answers 0, 1, 1,
+and the store ends at 2 instead of 3. (On the engine the check recognises this history by two overlapping copy serials in the trace.) -/
+theorem two_live_copies_diverge :
+    let step : Nat → Unit → Nat × Nat := fun s _ => (s + 1, s)
+    let c : CS2 Nat := { store := fun _ => 0, cache := fun _ => none, held := fun _ => none }
+    let r := crun2 step c [.access "p" (), .evict "p", .access "p" (), .heldStep "p" ()]
+    r.2 = [("p", 0), ("p", 1), ("p", 1)] ∧ r.1.store "p" = 2 ∧
+    (run step 0 [(), (), ()]).2 = [0, 1, 2] ∧ (run step 0 [(), (), ()]).1 = 3 := by
+  simp [crun2, cstep2, run, upd]
+
+/-- without steps on held copies the cache of the finding's model is the transparent one: same store, same cache, same outputs -/
+theorem cache_transparent_partial (step : S → Op → S × Out) (es : List (CEv Op)) : ∀ (c : CS2 S),
+    let lift : CEv Op → CEv2 Op := fun e => match e with | .access p o => .access p o | .evict p => .evict p
+    let r2 := crun2 step c (es.map lift)
+    let r1 := crun step { store := c.store, cache := c.cache } es
+    r2.1.store = r1.1.store ∧ r2.1.cache = r1.1.cache ∧ r2.2 = r1.2 := by
+  induction es with
+  | nil => intro c; simp [crun2, crun]
+  | cons e es ih =>
+    intro c
+    cases e with
+    | access p o =>
+      have := ih (cstep2 step c (.access p o)).1
+      simp only [List.map_cons, crun2, crun, cstep2, cstep, CS.get] at this ⊢
+      obtain ⟨a, b, d⟩ := this
+      exact ⟨a, b, by rw [d]⟩
+    | evict p =>
+      have := ih (cstep2 step c (.evict p)).1
+      simp only [List.map_cons, crun2, crun, cstep2, cstep] at this ⊢
+      exact this
+
 -- ------------------------------------------------------------------ start
 
 /-- a second start with a present id is refused and changes nothing -/
